@@ -10,6 +10,7 @@ Every emitted XML document (tapped writers) must parse with the standard library
 """
 import gzip
 import os
+import re
 import tempfile
 import xml.etree.ElementTree as ET
 
@@ -53,8 +54,10 @@ PE = None
 DIO = None
 MON = None
 
-P_DOBS = Profile('dobs', value_rtol=1e-15, cov_rtol=1e-13, delta_rtol=1e-13, scale='dobs', drop_zero_grad=True, check_tag=False, check_rew=False)
-P_POBS = Profile('pobs', delta_rtol=1e-13, scale='pobs', check_tag=False, check_rew=False, value_recomputed=True)
+# value: %1.16e text is read back bit-identically; covariance / gradient: %1.14e text, half a unit of the 15th digit per entry;
+# fluctuations: raw + value, a mean over N numbers, a subtraction: (log2 N + 3) eps of the largest sample
+P_DOBS = Profile('dobs', value_rtol=0.0, cov_rtol=5.5e-15, cov_elementwise=True, delta_rtol=4e-15, scale='dobs', drop_zero_grad=True, check_tag=False, check_rew=False)
+P_POBS = Profile('pobs', delta_rtol=4e-15, scale='pobs', check_tag=False, check_rew=False, value_recomputed=True)
 
 T_ZERO = 'dobs:measured-sample-exactly-zero-dropped-on-import'
 T_MARKER = 'dobs:sample-equal-to-central-value-written-as-not-measured-marker'
@@ -64,6 +67,8 @@ T_GZ_POBS = 'pobs:read_pobs-gz-false-raises-xml-declaration-in-text-mode'
 T_STR = 'dobs:import_dobs_string-str-input-raises-xml-declaration'
 T_POBS_LISTS = 'pobs:different-configuration-lists-silently-misaligned'
 XML_DECL_MSG = 'Unicode strings with encoding declaration are not supported'
+NUM_INT = re.compile(r'^[+-]?[0-9]+$')
+NUM_FLOAT = re.compile(r'^[+-]?[0-9]\.[0-9]+e[+-][0-9]{2,3}$')
 
 
 class XmlMonitor(taps.Monitor):
@@ -88,6 +93,19 @@ class XmlMonitor(taps.Monitor):
             return
         if r.tag != self.root:
             self.ctx.violation('xml:unexpected-root-element', {'got': r.tag, 'exp': self.root})
+        # the documented precision of the text: 16 digits after the point for values and samples (read back bit-identically),
+        # 14 for covariance matrices and gradients; '0' is the marker / an exact zero, integers are configuration numbers
+        self.ctx.count('j:xml:number-written-with-fewer-digits-than-documented')
+        self.ctx.ev()
+        for arr in r.iter('array'):
+            kids = list(arr)
+            ident = (arr.findtext('id') or '').strip()
+            need = 14 if ident in ('cov', 'grad') else 16
+            text = (kids[-1].tail or '') if kids else ''
+            bad = [t for t in text.split() if not NUM_INT.match(t) and not (NUM_FLOAT.match(t) and len(t.split('.')[1].split('e')[0]) == need)]
+            if bad:
+                self.ctx.violation('xml:number-written-with-fewer-digits-than-documented', {'array': ident, 'digits required': need, 'tokens': bad[:4]})
+                break
 
 
 def setup(ctx):
@@ -346,7 +364,7 @@ def judge_dobs_obs(ctx, g, e, nm, where, detail):
             _, ed, er = e['chains'][n]
             es = {int(c): er + x for c, x in zip(eidl, ed)}
             ctx.close(gr + np.asarray(gd), [es[c] for c in gidl], 'dobs:samples-of-retained-configurations', where + ' chain ' + n,
-                      rtol=1e-13, scale=rt_io.chain_scale(e, n, 'dobs'), detail=detail)
+                      rtol=4e-15, scale=rt_io.chain_scale(e, n, 'dobs'), detail=detail)
     ok = cmp_snap(ctx, g, e, P_DOBS, where, name_map=nm, skip_chains=tuple(skip), detail=detail)
     return ok and clean
 
